@@ -180,7 +180,12 @@ package subscribe
 //@   allocates match.branch
 //@   modifies heap(match.branch.clients), heap(match.branch.children), mapheap(m.tree.clients), mapheap(m.tree.children)
 //@   invariant 0: TrieWf() && (arr(removes) == 0 || (fresh(removes) && !frozen(removes) && arr(removes) != arr(prefix))) && view(prefix) == idxpath(s.Prefix, true) && cap(prefix) == len(prefix)
+//@   invariant 0: [one-registration-per-listed-path-so-far C06] 0 <= $i && $i <= len(s.Subscription)
+//@     && hits("call (*Match).AddQuery#0") - old(hits("call (*Match).AddQuery#0")) <= $i
+//@     && ((forall j int :: 0 <= j && j < $i ==> s.Subscription[j].Path != nil) ==> hits("call (*Match).AddQuery#0") - old(hits("call (*Match).AddQuery#0")) == $i)
 //@   ensures res0 != nil && TrieWf()
+//@   ensures [every-listed-path-is-registered-once C06 C04] (forall j int :: 0 <= j && j < len(s.Subscription) ==> s.Subscription[j].Path != nil)
+//@     ==> hits("call (*Match).AddQuery#0") - old(hits("call (*Match).AddQuery#0")) == len(s.Subscription)
 //@   assert at call (*Match).AddQuery#0: [query-is-prefix-origin-path C06] view(arg1) == SubQuery(s, p) && box(c) == arg2
 //@ func result addSubscription
 //@   note the returned closure only runs the remove functions handed out by match.AddQuery
@@ -260,6 +265,8 @@ package subscribe
 //@   props C06 C08 C12
 //@   requires s != nil && s.m != nil && s.m.tree != nil && TrieWf()
 //@   modifies ghost notified, ghost visitedB
+//@   assert at call UpdateNotification#0: [the-cache-leaf-itself-is-offered-so-that-its-updates-coalesce C08 C11] arg0 == s.m && arg1 == box(old(n)) && arg2 != nil
+//@     && arg2 == old(n).leafBranch.(*pb.Notification) && view(arg3) == idxpath(arg2.Prefix, true)
 
 // matchClient.Update only inserts into the (unbounded, coalescing) queue: it never blocks.
 //@ func (matchClient).Update
